@@ -1039,7 +1039,7 @@ func (val Value) HasElement(elem Value) Value {
 	if !val.IsKnown() {
 		return unknownResult
 	}
-	if elem.Type() != DynamicPseudoType && val.Type().IsSetType() && val.Type().ElementType() != DynamicPseudoType {
+	if !elem.Type().HasDynamicTypes() && val.Type().IsSetType() && !val.Type().ElementType().HasDynamicTypes() {
 		// If we know the type of the given element and the element type of
 		// the set then they must match for the element to be present, because
 		// a set can't contain elements of any other type than its element type.
@@ -1062,6 +1062,10 @@ func (val Value) HasElement(elem Value) Value {
 		noMatchResult = unknownResult
 	}
 	if !ty.ElementType().Equals(elem.Type()) {
+		if elem.Type().HasDynamicTypes() || ty.ElementType().HasDynamicTypes() {
+			// We can't compare types that aren't fully known yet.
+			return unknownResult
+		}
 		// A set can only contain an element of its own element type
 		return False
 	}
